@@ -156,9 +156,23 @@ def run(ctx):
     diag_half(ctx, sub, "lambda", "lambda")
     diag_half(ctx, sub[:200 if ctx.quick else 800], "global", "global")
     acc = [r for r in rows if r["exh"]]
-    pick = rng.sample(acc, min(len(acc), 250 if ctx.quick else 1500))
+    pick = rng.sample(acc, min(len(acc), 150 if ctx.quick else 1500))
     for i in range(0, len(pick), 250):
         run_half(ctx, pick[i:i + 250], f"r{i}")
+    # dense integer matches (jump-table lowering): literals base..base+3, values incl. 2^32 aliases and range ends
+    r = tlc("Match", cfg="Match_dense.cfg" if ctx.quick else "Match_dense5.cfg", cwd=LANG, workers=8, timeout=3000, heap="8g")
+    tlc_must_pass(r, "Match_dense")
+    ctx.tlc_stats(r, "Match dense")
+    dense = mr.load_rows(r.out)
+    if len(dense) != r.distinct:
+        raise ToolError(f"dense: {len(dense)} rows for {r.distinct} states")
+    bases = [(0, 0)] if ctx.quick else [(0, 0), (5, 5), (5000000000, 100000), (4294967295, 2147483000)]
+    for b64, b32 in bases:
+        mr.BASE["i64d"], mr.BASE["i32d"] = b64, b32
+        sub = rng.sample(dense, min(len(dense), 120 if ctx.quick else 250))
+        diag_half(ctx, sub, "fn", f"dense{b64}")
+        run_half(ctx, sub, f"dense{b64}")
+    mr.BASE["i64d"], mr.BASE["i32d"] = 0, 0
     ctx.extra["matrices"] = {"enumerated": len(rows), "exhaustive": len(acc), "diag_checked_fn": len(drows), "run_checked": len(pick)}
     ctx.assumptions += ["Int32 literal patterns abstracted to {0, 1, other}", "guards are calls reading a global bit mask"]
 
